@@ -123,6 +123,9 @@ def oracle(p, c, o):
 
 
 # ---------------------------------------------------------------- running programs
+HOOKS = ('pre', 'last', 'soon', 'done', 'done+1', 'done+2')
+
+
 def cancel_instants(p, base, mode):
     if base['res'] in ('Deadlock', 'Livelock'):
         return []
@@ -130,8 +133,18 @@ def cancel_instants(p, base, mode):
     if mode == 'odd':
         return list(range(1, min(end, 120) + 2, 2))
     # one tick after every instant at which something can happen (a timer of the run is due)
-    cs = sorted({w + 1 for w in base['whens'] if 0 <= w < end} | {1})
-    return cs[:40]
+    cs = sorted({w + 1 for w in base['whens'] if 0 <= w < end} | {1})[:40]
+    # ... and, at loop-iteration granularity, around the moment a group member finishes by itself
+    # (the instant is the same for all of them; what differs is whether the member's last step,
+    # the group's bookkeeping of the completion and the joiner's wake-up have happened yet)
+    natural = [(m['finished'], g['gno'], i) for g in base['evs'] if g['kind'] == 'group'
+               for i, m in enumerate(g['members'])
+               if m['cancel_seen'] is None and m['finished'] is not None and m['finished'] <= end]
+    natural.sort()
+    picked = natural[:1] + natural[-1:] if len(natural) > 1 else natural
+    for _f, gno, mno in picked:
+        cs += [('m', gno, mno, hook) for hook in HOOKS]
+    return cs
 
 
 def _work(args):
@@ -158,25 +171,62 @@ def run_impl(ctx, progs, mode, only=None):
     return [x for part in parts for x in part]
 
 
-def case_of(p, c):
+def case_of(p, c, o=None):
     if T.any_node(p, lambda q: q[0] == 'groupx'):
-        return {'program_json': T.to_json(p), 'readable': T.show(p), 'cancel': c}
-    return {'program': T.ser_plain(p), 'forms': _forms(p), 'readable': T.show(p), 'cancel': c}
+        case = {'program_json': T.to_json(p), 'readable': T.show(p), 'cancel': c}
+    else:
+        case = {'program': T.ser_plain(p), 'forms': _forms(p), 'readable': T.show(p), 'cancel': c}
+    if isinstance(c, tuple):
+        # task.cancel() placed relative to a member's own completion: (group entered g-th,
+        # member m, placement); `cancel` is the virtual instant at which that happened
+        case['cancel_at_member_completion'] = {'group': c[1], 'member': c[2], 'placement': c[3]}
+        case['cancel'] = (o or {}).get('cancel_t')
+    return case
+
+
+def cancel_of(case):
+    h = case.get('cancel_at_member_completion')
+    if h:
+        return ('m', h['group'], h['member'], h['placement'])
+    return case.get('cancel')
 
 
 def evaluate(ctx, progs, res, only_cancel=None, mode='odd', use_model=True, tag='flat'):
     allruns = run_impl(ctx, progs, mode, only_cancel)
     flat = [(p, c, o) for p, runs in zip(progs, allruns) for (c, o) in runs]
-    model = ctx.model([T.model_line(p, c) for p, c, _o in flat]) if use_model else None
+    # the model places a cancel at an integer instant, after the completions of that instant have
+    # been booked by the group and before anybody has acted on them: that is placement 'done'.
+    # The other placements differ from it by loop iterations inside one instant (member finished
+    # but not yet booked: 'last', 'soon'; joiner already woken: 'done+1', 'done+2'; member not yet
+    # finished: 'pre') - they are judged by the oracle only.
+
+    def model_cancel(c, o):
+        if not isinstance(c, tuple):
+            return c
+        return o.get('cancel_t') if c[3] == 'done' and o.get('cancel_t') is not None else 'skip'
+    lines, index = [], {}
+    if use_model:
+        for i, (p, c, o) in enumerate(flat):
+            mc = model_cancel(c, o)
+            if mc != 'skip':
+                index[i] = len(lines)
+                lines.append(T.model_line(p, mc))
+    model = ctx.model(lines) if use_model else None
     for i, (p, c, o) in enumerate(flat):
         got = T.fmt_obs(o)
-        case = case_of(p, c)
-        for key, why in oracle(p, c, o):
-            res.violation(key, case, why, impl=got)
-        if model is not None:
-            want = T.align_model(model[i], o)
+        case = case_of(p, c, o)
+        cn = o.get('cancel_t') if isinstance(c, tuple) else c
+        if cn is not None:
+            for key, why in oracle(p, cn, o):
+                res.violation(key, case, why, impl=got)
+        if model is not None and i in index:
+            want = T.align_model(model[index[i]], o)
             if want != got:
                 res.disagreement(case, got, want)
+        if isinstance(c, tuple):
+            res.count(f'{tag}_micro_step_cancels')
+            res.count(f'{tag}_micro_step_cancels_delivered', o.get('deliv', 0))
+            c = cn if cn is not None else -1
         res.count(f'{tag}_runs')
         res.count(f'{tag}_delivered', o.get('deliv', 0))
         res.count('outcome_' + o['res'])
@@ -187,7 +237,7 @@ def evaluate(ctx, progs, res, only_cancel=None, mode='odd', use_model=True, tag=
         res.count('delivered_inside_a_group', int(bool(o.get('deliv')) and in_group))
         if o.get('deliv') and (expired_before or T.n_blocks(p) >= 2 or in_group):
             res.nontrivial((str(case.get('program') or case.get('program_json')),
-                            case.get('forms'), c))
+                            case.get('forms'), str(cancel_of(case))))
         if o.get('deliv') and expired_before:
             res.sample({'program': T.show(p), 'cancel_at': c, 'impl': got})
     res['evaluations'] += len(flat)
@@ -503,9 +553,9 @@ def replay(ctx, case):
         return res.finish('replay of one recorded session case')
     if 'program_json' in case:
         p = T.from_json(case['program_json'])
-        evaluate(ctx, [p], res, only_cancel=case.get('cancel'), mode='events', use_model=False)
+        evaluate(ctx, [p], res, only_cancel=cancel_of(case), mode='events', use_model=False)
         return res.finish('replay of one recorded case')
     p = parse_prog(case['program'], case.get('forms', ''))
-    evaluate(ctx, [p], res, only_cancel=case.get('cancel'),
+    evaluate(ctx, [p], res, only_cancel=cancel_of(case),
              mode='events' if T.has_group(p) else 'odd')
     return res.finish('replay of one recorded case')
